@@ -11,6 +11,7 @@ import (
 	"strings"
 
 	"github.com/ipld/go-ipld-prime/codec/dagjson"
+	"github.com/ipld/go-ipld-prime/datamodel"
 	"github.com/ipld/go-ipld-prime/node/basicnode"
 	rjson "github.com/polydawn/refmt/json"
 	"github.com/polydawn/refmt/tok"
@@ -583,6 +584,12 @@ func runC04(c *core.Ctx) error {
 		got := jsonDecodeTerm(dagjson.DecodeOptions{ParseLinks: true, ParseBytes: true}, b)
 		c.KnownWitness("C04/float-integral-emitted-as-int", got == "ok i1", "Decode(Encode(float 1.0)) = "+got+" (text "+string(b)+")")
 	}
+	// results of the helper API are the caller's (shared with C02): several encodes in a row, every result kept
+	c02HelperHistories(c, c.Rand.Fork(), c.Pick(150, 10000), dagjson.Encode, func(nd datamodel.Node) ([]byte, error) {
+		var buf bytes.Buffer
+		err := dagjson.Encode(nd, &buf)
+		return buf.Bytes(), err
+	}, "C04")
 	n := c.Pick(3000, 150000)
 	for done := 0; done < n; {
 		k := min(5000, n-done)
